@@ -800,7 +800,21 @@ class TaskGroup(abc.TaskGroup):
                 if not self._tasks:
                     # If there are no child tasks to wait on, run at least one checkpoint
                     # anyway
-                    await AsyncIOBackend.cancel_shielded_checkpoint()
+                    try:
+                        await AsyncIOBackend.cancel_shielded_checkpoint()
+                    except CancelledError as exc:
+                        # A native cancellation got through the shield. If tasks were
+                        # spawned by others during the checkpoint, they must still be
+                        # waited on, so handle this like a cancellation in the loop below
+                        if not self._tasks:
+                            raise
+
+                        self.cancel_scope.cancel()
+                        if exc_val is None or (
+                            isinstance(exc_val, CancelledError)
+                            and not is_anyio_cancellation(exc)
+                        ):
+                            exc_val = exc
 
                 # Tasks may have been spawned by others during the above checkpoint
                 if self._tasks:
